@@ -31,7 +31,8 @@ MANIFEST_TEXT = ("Lean 4 theorems for all element sizes, alignments, pool sizes,
                  "loop) are run against the real allocators (28 element types, sizeof 1..1000, alignof 1..128; the debug manager "
                  "also as an object owned by the case in both configurations of DEBUG_ALLOCATOR_KEEP so that its destructor runs, "
                  "the pool also compiled with NDEBUG; allocation with a hint, through copies and through allocators converted from "
-                 "another element type) on >=20k random "
+                 "another element type, and through std::allocator_traits<A>::rebind_alloc<U> for a U of twice the size, checked against "
+                 "the alignment the family promises) on >=20k random "
                  "histories per run with an interval-map/tag/ASan oracle (plus recorded operator new/mmap/munmap calls) deciding "
                  "the property itself.")
 MANIFEST_NOTE = ("Partial: malloc/aligned_alloc/operator new/mmap/mprotect are trusted (modelled as parameters); the proof is "
@@ -62,7 +63,8 @@ RULE = ("case = one allocator instance (kind x element type from 28 (sizeof,alig
         "are rounds of allocate/release of the same few sizes (second use), earlier request sizes are asked for again; "
         "kinds dbgmgr <keep> = AllocationManager owned by the case in configuration DEBUG_ALLOCATOR_KEEP=<keep>, destroyed at "
         "the end of the case; poolnd/pand = Pool/PoolAllocator compiled with NDEBUG (no foreign frees); raw ops h<n> "
-        "allocate(n, hint), c<n> allocate through a copy, g<k>/G<k> deallocate through a copy / a converted allocator); distinct = distinct "
+        "allocate(n, hint), c<n> allocate through a copy, g<k>/G<k> deallocate through a copy / a converted allocator, r<n> allocate n objects of twice the size through the rebound "
+        "allocator allocator_traits<A>::rebind_alloc<U>); distinct = distinct "
         "op lines; non-trivial = every case whose oracle ran (unsupported configurations are trivial)")
 ASSUMPTIONS = [
     "the state machines in lean/DuneVerif/Model/C15.lean (intrusive pool IPool = transcription of Pool::grow/allocate/free; list model Pool proved equivalent; allocation list of the debug manager) are hand-written; their fidelity to the headers rests on this differential run, in which the driver executes the intrusive pool and cross-checks it against the list model",
